@@ -239,7 +239,7 @@ pub fn run_c05(ctx: &Ctx) -> i32 {
             ],
             exhaustive: false,
             extra: Default::default(),
-            min_nontrivial: 500,
+            min_nontrivial: 50,
         },
     )
 }
@@ -274,7 +274,7 @@ pub fn run_c06(ctx: &Ctx) -> i32 {
             ],
             exhaustive: false,
             extra: Default::default(),
-            min_nontrivial: 500,
+            min_nontrivial: 50,
         },
     )
 }
@@ -332,7 +332,7 @@ pub fn run_c07(ctx: &Ctx) -> i32 {
             assumptions: vec!["void as an argument type (the statement is silent) is held to the primitives' rule".into(), "argument categories come from the reference resolver".into()],
             exhaustive: false,
             extra,
-            min_nontrivial: 500,
+            min_nontrivial: 50,
         },
     )
 }
@@ -434,7 +434,7 @@ pub fn run_c08(ctx: &Ctx) -> i32 {
             assumptions: vec!["an unresolved name as map key is ambiguous in the statement: 0 or 1 Error accepted there (counted as lenient)".into(), "child categories come from the reference resolver".into()],
             exhaustive: false,
             extra,
-            min_nontrivial: 200,
+            min_nontrivial: 20,
         },
     )
 }
@@ -542,7 +542,7 @@ pub fn run_c09(ctx: &Ctx) -> i32 {
             assumptions: vec!["codes are compared as u32 (007 = 7); overflowing codes are not generated here (C01/C04 own them)".into()],
             exhaustive: false,
             extra,
-            min_nontrivial: 500,
+            min_nontrivial: 50,
         },
     )
 }
@@ -616,7 +616,7 @@ pub fn run_c10(ctx: &Ctx) -> i32 {
             assumptions: vec!["return categories come from the reference resolver".into()],
             exhaustive: false,
             extra,
-            min_nontrivial: 500,
+            min_nontrivial: 50,
         },
     )
 }
